@@ -12,6 +12,8 @@ import (
 	"net"
 	"strings"
 
+	"gitlab.com/aquachain/aquachain/crypto"
+	"gitlab.com/aquachain/aquachain/crypto/ecies"
 	"gitlab.com/aquachain/aquachain/crypto/sha3"
 	"gitlab.com/aquachain/aquachain/p2p/discover"
 )
@@ -234,3 +236,84 @@ func (m *VerifLazyMsg) ReadAll() []byte { b, _ := ioutil.ReadAll(m.msg.Payload);
 
 // Discard is Msg.Discard.
 func (m *VerifLazyMsg) Discard() error { return m.msg.Discard() }
+
+// ---- handshake staging and the protocol handshake (C17 final phase)
+
+// VerifReceiverStage runs the two halves of receiverEncHandshake separately on an
+// auth packet and reports where it stopped:
+// read-short | read-underflow | read-err | badid | badecdh | badsig | ok.
+func VerifReceiverStage(r io.Reader, prv *ecdsa.PrivateKey) string {
+	authMsg := new(authMsgV4)
+	_, err := readHandshakeMsg(authMsg, encAuthMsgLen, prv, r)
+	switch {
+	case err == nil:
+	case err == io.EOF || err == io.ErrUnexpectedEOF:
+		return "read-short"
+	case strings.HasPrefix(err.Error(), "size underflow"):
+		return "read-underflow"
+	default:
+		return "read-err"
+	}
+	h := new(encHandshake)
+	err = h.handleAuthMsg(authMsg, prv)
+	switch {
+	case err == nil:
+		return "ok"
+	case strings.HasPrefix(err.Error(), "bad remoteID"):
+		return "badid"
+	case h.remotePub != nil && h.randomPrivKey != nil && strings.HasPrefix(err.Error(), "ecies:"):
+		return "badecdh"
+	default:
+		return "badsig"
+	}
+}
+
+// VerifAuthChecks evaluates the three primitive checks of handleAuthMsg on the
+// fields of an auth message, independently of the handshake code (oracle bits
+// for the model): is the id a curve point, does the static ECDH succeed, does
+// the signature over xor(token, nonce) recover a key.
+func VerifAuthChecks(prv *ecdsa.PrivateKey, sig, pub, nonce []byte) (idOnCurve, ecdhOK, sigRecovers bool) {
+	var id discover.NodeID
+	copy(id[:], pub)
+	rpub, err := id.Pubkey()
+	if err != nil {
+		return false, false, false
+	}
+	token, err := ecies.ImportECDSA(prv).GenerateShared(ecies.ImportECDSAPublic(rpub), sskLen, sskLen)
+	if err != nil {
+		return true, false, false
+	}
+	_, err = crypto.Ecrecover(xor(token, nonce), sig)
+	return true, true, err == nil
+}
+
+type verifOneMsg struct{ m *Msg }
+
+func (r *verifOneMsg) ReadMsg() (Msg, error) {
+	if r.m == nil {
+		return Msg{}, io.EOF
+	}
+	m := *r.m
+	r.m = nil
+	return m, nil
+}
+
+// VerifReadProtocolHandshake is readProtocolHandshake on one message (code, size, payload):
+// toobig | disc | wrongcode | badbody | zeroid | ok (+ the peer id).
+func VerifReadProtocolHandshake(code uint64, size uint32, payload []byte) (string, discover.NodeID) {
+	hs, err := readProtocolHandshake(&verifOneMsg{&Msg{Code: code, Size: size, Payload: verifReader(payload)}}, nil)
+	switch {
+	case err == nil:
+		return "ok", hs.ID
+	case err.Error() == "message too big":
+		return "toobig", discover.NodeID{}
+	case err == DiscInvalidIdentity:
+		return "zeroid", discover.NodeID{}
+	case strings.HasPrefix(err.Error(), "expected handshake"):
+		return "wrongcode", discover.NodeID{}
+	}
+	if _, ok := err.(DiscReason); ok {
+		return "disc", discover.NodeID{}
+	}
+	return "badbody", discover.NodeID{}
+}
